@@ -108,6 +108,8 @@ def _rah_schedules(rep, hists):
                     out[('ship', t)] = sh.attrs[im.u.res[t]]
                 except KeyError:
                     out[('ship', t)] = 'KeyError'
+            # an attribute of the ship the simulator has nothing to do with (it travels in the same change messages)
+            out[('ship', 'misc')] = sh.attrs.get(im.u.misc, 'KeyError')
         return out
     for h in hists:
         ops = [op for op in h['ops'] if op['op'] != 'obs']
@@ -137,11 +139,17 @@ def oracle(ctx):
     _r = ctx.sub_rnd('rah-schedules')
     hists = [_c12.gen_history(_r) for _ in range(ctx.n(60, 800))]
     # ... and histories that end with one change touching two inputs of the simulation at once (one message batch)
-    for _ in range(ctx.n(40, 400)):
+    for _ in range(ctx.n(70, 600)):
         h = _c12.gen_history(_r, length=_r.randint(2, 5))
         for kind in _r.sample(['rahres+cyc', 'misc+shift', 'rahres', 'cyc'], 2):
             h['ops'].append({'op': 'imp', 'k': kind, 'v': _r.choice(_c12.MULT[kind.split(':')[0]])})
         hists.append(h)
+    # designed: default (uniform) damage profile, where the adaptation depends on the shift amount
+    ok = {'op': 'add', 'v': [0.85, 0.85, 0.85, 0.85], 'shift': 6, 'cyc': 10000, 'state': 3}
+    for extra in ([], [dict(ok, cyc=7000)]):
+        for kind, val in (('misc+shift', 2.0), ('rahres+cyc', 0.9375), ('shift', 1.5)):
+            hists.append({'pen': False, 'dyadic': True, 'ops': [{'op': 'ship', 'v': [0.5, 0.65, 0.75, 0.9]}, dict(ok)] + extra +
+                          [{'op': 'imp', 'k': kind, 'v': val}]})
     _rah_schedules(ctx.report, hists)
     # simulator-backed values (reactive armor hardener): the read-order oracle of C12 on its histories
     from props import c12
